@@ -180,6 +180,9 @@ func runC08(c *core.Ctx) {
 					viol++
 					c.Violate(name+"|order", caseID, fmt.Sprintf("input %v -> amplitude %d but the smaller input %v -> %d", x, da, prevX, prevA), det())
 				}
+				if count == 5000 {
+					c.Sample("conversion", map[string]any{"fn": name, "input": x, "result_amplitude": da, "previous": []any{prevX, prevA}})
+				}
 				prevX, prevA, have = x, da, true
 			}
 			first = false
